@@ -64,7 +64,7 @@ func init() {
 	})
 	reg(&PropSpec{
 		ID: "C14", Level: "other",
-		Explanation: seqLevelText + ". C14: every expression tree over From/FromSlice/TakeWhile/DropWhile/Filter/Map/Plus/Join up to depth 2 (depth 3 did not finish within 45 minutes on this machine and is not registered; the thorough command explores the same trees), leaves of 0..2 symbolic elements, predicates/mapping/flat-map selector uninterpreted (selector yields nil, one element or a 1-2 element slice); the documented drain loop and ForEach (callback failing at every position) are compared with a reference evaluator over plain slices; source slices compared before/after. Tree shapes are forked, all values and function behaviours are solver variables.",
+		Explanation: seqLevelText + ". C14: every expression tree over From/FromSlice/TakeWhile/DropWhile/Filter/Map/Plus/Join up to depth 2 with leaves of 0..2 symbolic elements, plus the depth-3 trees along the left spine (right operand of every Plus a leaf, leaves of 0..1 elements, Join(Join(..)) excluded) - full depth 3 did not finish within 45 minutes on this machine and is not registered; the thorough command explores the same trees; predicates/mapping/flat-map selector uninterpreted (selector yields nil, one element or a 1-2 element slice); the documented drain loop and ForEach (callback failing at every position) are compared with a reference evaluator over plain slices; source slices compared before/after. Tree shapes are forked, all values and function behaviours are solver variables.",
 		Assumptions: append([]string{"a sequence value is consumed by one consumer (no aliasing of one iterator in two places of a tree)", "trees deeper than the bound and leaves longer than 2 are outside the claim"}, commonAssumptions...),
 		Jobs: func(tier string) []JobSpec {
 			depth := 2
@@ -83,6 +83,19 @@ func init() {
 							p["k1"] = k1
 						}
 						js = append(js, JobSpec{Group: "traitseq", Harness: h, Mode: "seq", Params: p})
+					}
+				}
+			}
+			// depth 3 along the left spine (the right operand of every Plus is a leaf),
+			// leaves of 0..1 elements: combinators applied to an iterator that other
+			// combinators have already advanced
+			for k0 := 3; k0 < 9; k0++ {
+				for k1 := 3; k1 < 9; k1++ { // (a leaf as first child is a depth-2 tree: covered above)
+					if k0 == 7 && k1 == 7 {
+						continue // Join of Join of a depth-1 tree: 52k paths, 80 s; not registered
+					}
+					for _, h := range []string{"VSeqDrain", "VSeqForEach"} {
+						js = append(js, JobSpec{Group: "traitseq", Harness: h, Mode: "seq", Params: map[string]int{"depth": 3, "maxleaf": 1, "spine": 1, "k0": k0, "k1": k1}})
 					}
 				}
 			}
@@ -163,7 +176,7 @@ func init() {
 		Assumptions: append([]string{"reflect reports the compiler's layout and type identity (model: go/types + types.SizesFor(gc, amd64)); replays run against the real reflect", "struct shapes outside the corpus are outside the claim; self-referential pointer embedding makes unfold diverge and is excluded"}, commonAssumptions...),
 		Jobs: func(tier string) []JobSpec {
 			var js []JobSpec
-			for _, h := range []string{"VListFlat", "VListDeep", "VListTag", "VListPtr", "VListDup", "VListZero", "VListNine", "VListShadow", "VSymList"} {
+			for _, h := range []string{"VListFlat", "VListDeep", "VListTag", "VListPtr", "VListDup", "VListDoc", "VListZero", "VListNine", "VListShadow", "VSymList"} {
 				js = append(js, JobSpec{Group: "hseq", Harness: h, Mode: "seq"})
 			}
 			return js
@@ -368,6 +381,7 @@ func init() {
 			js := []JobSpec{
 				{Group: "pipe", Harness: "VThrottlePace", Mode: "bmc", Params: map[string]int{"ops": 1, "n": 3, "interval": 10, "clock": 2}, K: 40},
 				{Group: "pipe", Harness: "VThrottlePace", Mode: "bmc", Params: map[string]int{"ops": 1, "n": 2, "interval": 7, "clock": 2}, K: 40},
+				{Group: "pipe", Harness: "VThrottlePace", Mode: "bmc", Params: map[string]int{"ops": 2, "n": 3, "interval": 5, "clock": 2}, K: 40},
 			}
 			if tier == "thorough" {
 				js = append(js,
